@@ -24,6 +24,9 @@ def main():
         print("patch does not apply:", r.stderr)
         return 2
     results = {}
+    import shutil, tempfile
+    backup = tempfile.mkdtemp(prefix="evidence-backup-", dir=os.path.join(ROOT, ".work"))
+    shutil.copytree(os.path.join(ROOT, "evidence"), os.path.join(backup, "evidence"))
     try:
         for c in checks:
             t0 = time.time()
@@ -43,6 +46,10 @@ def main():
     finally:
         subprocess.run(["git", "-C", "/repo", "checkout", "--", "."], check=True)
         subprocess.run(["git", "-C", "/repo", "clean", "-fdq", "src"], check=False)
+        # Evidence must describe runs against the unchanged tree only.
+        shutil.rmtree(os.path.join(ROOT, "evidence"))
+        shutil.copytree(os.path.join(backup, "evidence"), os.path.join(ROOT, "evidence"))
+        shutil.rmtree(backup)
     return 0
 
 if __name__ == "__main__":
